@@ -21,10 +21,11 @@ META = {
         "proxy and transport keep the caller's Config object itself, so a class registered in its local table later is seen, and "
         "every constructor receiving a config hands that object to the package constructors it calls (pooled server, CGI handler, transports); "
         "C07.8 the class instantiated by load is the entry of the caller's class table or the attribute read from the module imported in that "
-        "very call (no remembered class objects: the class currently bound to the name is the one instantiated).; C07.9 (imported C15.3) the type tables that decide which field values are dumped equal the specification (None, bool, numbers, strings, containers)"),
+        "very call (no remembered class objects: the class currently bound to the name is the one instantiated).; C07.9 (imported C15.3) the type tables that decide which field values are dumped equal the specification (None, bool, numbers, strings, containers) C07.10 (imported from C02.6 / C17.3) for objects travelling over RPC: the JSON backend is called with the object alone (ASCII-only output) and both sides accumulate the raw reads and decode the joined bytes once - a bean with non-ASCII text survives whatever the chunking."),
     "does_not_decide": "equality of the reloaded fields for generated class shapes, importability of the emitted class "
                        "name, enum/Decimal value fidelity (value-level round trip over a space of programs).",
-    "rules": {"C07.9": "imported C15.3", "C07.1": "provenance of the classes argument at recursive call sites", "C07.2": "call-graph / loop structure",
+    "rules": {"C07.10": "imported C02.6 (backend call options), C17.3 (raw accumulation, one decode)",
+              "C07.9": "imported C15.3", "C07.1": "provenance of the classes argument at recursive call sites", "C07.2": "call-graph / loop structure",
               "C07.3": "shape interpreter on _slots_finder", "C07.4": "provenance of config arguments", "C07.5": "dominating isinstance branch of each constructor call",
               "C07.6": "sibling agreement Config.__init__/copy", "C07.7": "provenance of the stored config",
               "C07.8": "provenance of the instantiated class object"},
@@ -343,3 +344,9 @@ def check(ck):
     from rules import c15 as _c15
     common.import_rules(ck, _c15.rule_c15_3, {"C15.3": "C07.9"})
     ck.floor("C07.9", 8)
+
+    # ---- C07.10 transport of the dumped form (shared with C02.6 / C17.3) ------------------------------------------------------
+    from rules import c02 as _c02t, c17 as _c17t
+    common.import_rules(ck, _c02t, {"C02.6": "C07.10"})
+    common.import_rules(ck, _c17t, {"C17.3": "C07.10"})
+    ck.floor("C07.10", 6)
